@@ -4,7 +4,30 @@ import math, itertools
 from engine import Prop, fbits, bitsf, untok, err_kind, load_known
 
 PS = ["1", "2", "inf"]
-PVAL = {"1": 1, "2": 2, "inf": float("inf")}
+# exponents that are not natural numbers (the accumulation is A + B**p for ANY number p): `B**p` is then not an integer even
+# when the point distance B is one (dim = 1 on whole-number heights, a callable returning ints)
+FRAC_PS = ["0.5", "1.5", "2.5", "0.75", "3.25"]
+FRAC_FORMS = ["float", "np.float64", "np.float16", "np.float32", "np.longdouble", "fn"]      # (the five values are exact in float16)
+
+
+def is_frac(p):
+    """p (a string: '0', '1', '2', …, 'inf', or the decimal form of another positive finite number) is not a natural number"""
+    return p != "inf" and not p.isdigit()
+
+
+def pnum(p):
+    """the Python number a string p stands for: int for a natural number, float otherwise"""
+    return float("inf") if p == "inf" else (float(p) if is_frac(p) else int(p))
+
+
+def ptok(p):
+    """protocol token of the value of p: k | inf | x<bits of the float>"""
+    return "x" + fbits(float(p)) if is_frac(p) else p
+
+
+def num_form(p):
+    """the plain Python form of p: int for a natural number, float for infinity and any other number"""
+    return "float" if p == "inf" or is_frac(p) else "int"
 TOL = 1e-9
 TINY = 1e-290
 
@@ -32,20 +55,19 @@ def rclose(a, b, rel=TOL):
 
 # ---------------------------------------------------------------------------------- how the exponent p is handed over
 # forms of a finite p = 0, 1, 2, 3 and of p = infinity; "fn" = a lambda computing the accumulation, "max" = the builtin
-FIN_FORMS = ["int", "float", "np.int8", "np.int16", "np.int32", "np.int64", "np.intc", "np.uint8", "np.uint16", "np.uint32",
-             "np.uint64", "np.float16", "np.float32", "np.float64", "fn"]
-INF_FORMS = ["float", "math.inf", "np.inf", "np.float16", "np.float32", "np.float64", "np.longdouble", "fn", "max"]
-# numpy scalar types whose name contains neither 'int' nor 'float': _p2weight leaves `weight` unbound for p not in {0, inf}
+# numpy scalar types whose name contains neither 'int' nor 'float' (_p2weight would not take them for numbers: match / compare
+# hand it float(p) / int(p) since 1f009f6)
 UNBOUND_FORMS = ["np.longlong", "np.ulonglong", "np.longdouble"]
 LOWPREC_FORMS = ["np.float16", "np.float32"]
+FIN_FORMS = ["int", "float", "np.int8", "np.int16", "np.int32", "np.int64", "np.intc", "np.uint8", "np.uint16", "np.uint32",
+             "np.uint64", "np.float16", "np.float32", "np.float64", "fn"] + UNBOUND_FORMS
+INF_FORMS = ["float", "math.inf", "np.inf", "np.float16", "np.float32", "np.float64", "np.longdouble", "fn", "max"]
 # styles of random tracks whose unit is drawn per case (rand_frame): the same shapes from 1e-6 to 1e7 units
 SCALED_STYLES = ["walk", "neardup", "slat"]
 MODE_MATCH = {"dtw": 2, "fdtw": 3, "frechet": 4}
 MODE_CMP = {"dtw": 106, "fdtw": 107, "frechet": 108}
-CLS_UNBOUND = "p-numpy-type-name-without-int-or-float"
-CLS_LOWPREC = "fdtw-exponent-float16-float32"
-CLS_INTPOW = "fdtw-int-distance-small-numpy-int-exponent"
 CLS_GEO2D = "geo-2d-distance-asymmetric"
+CLS_NPCOORD = "fdtw-numpy-int-coordinates-power-overflow"
 # fixed pairs of tracks of the other two classes of positions (lon, lat in degrees and a common height; geocentric metres)
 GEO_FIXED = [([[2.35, 48.85, 35.0], [2.3501, 48.8502, 35.0], [2.3503, 48.8501, 35.0]], [[2.35005, 48.85, 35.0], [2.3502, 48.8503, 35.0]]),
              ([[-70.6, -33.45, 520.0], [-70.6, -33.45, 520.0], [-70.59999, -33.45001, 520.0], [-70.5995, -33.4502, 520.0]],
@@ -56,10 +78,16 @@ ECEF_FIXED = [([[4201000.0, 168000.0, 4780000.0], [4201003.0, 168004.0, 4780000.
                [[4201000.0, 168004.0, 4780000.0], [4201003.0, 168000.0, 4780012.0]]),
               ([[6378137.0, 0.0, 0.0], [6378137.0, 3.0, 4.0]], [[6378137.0, 0.0, 4.0], [6378137.0, 3.0, 0.0], [6378140.0, 3.0, 4.0]])]
 ECEF_ORIGINS = [(4201000.0, 168000.0, 4780000.0), (6378137.0, 0.0, 0.0), (-2700000.0, -4300000.0, 3850000.0)]
-# numpy integer types: `B ** p` with B a Python int is evaluated in the type of p (OverflowError when B does not fit, silent
-# wrap-around when B ** p does not): largest value of each type
+# numpy integer types: largest value of each (`B ** p` with B a Python int and p a numpy integer is evaluated by numpy in the type of p
+# — OverflowError when B does not fit, silent wrap-around when B ** p does not; match / compare hand int(p) over since 1f009f6)
 NPINT_MAX = {"np.int8": 2 ** 7 - 1, "np.int16": 2 ** 15 - 1, "np.int32": 2 ** 31 - 1, "np.intc": 2 ** 31 - 1, "np.int64": 2 ** 63 - 1,
-             "np.uint8": 2 ** 8 - 1, "np.uint16": 2 ** 16 - 1, "np.uint32": 2 ** 32 - 1, "np.uint64": 2 ** 64 - 1}
+             "np.uint8": 2 ** 8 - 1, "np.uint16": 2 ** 16 - 1, "np.uint32": 2 ** 32 - 1, "np.uint64": 2 ** 64 - 1,
+             "np.longlong": 2 ** 63 - 1, "np.ulonglong": 2 ** 64 - 1}
+# whole-number height profiles (dim = 1, coordinates handed over as Python ints) whose differences B have B ** p above the largest
+# value of the small numpy integer types: (track1, track2)
+BIGINT_FIXED = [([[0, 0, 0], [0, 0, 300]], [[0, 0, 0], [0, 0, 10]]),
+                ([[0, 0, 0], [1, 70000, 70000], [2, 300, 300], [3, 12, 12]], [[0, 10, 10], [1, 66000, 66000], [2, 5, 5]]),
+                ([[0, 65536, 65536], [1, 0, 0], [1, 3000000, 3000000]], [[0, 0, 0], [1, 65536, 65536], [2, 40, 40], [3, 2999000, 2999000]])]
 
 
 # ---------------------------------------------------------------------------------- tracks
@@ -127,7 +155,7 @@ def ocost(a, b, dim, p, cls="enu"):
         return s if dim == 2 else s + (a[2] - b[2]) ** 2
     if p in ("1", "inf"):
         return odist(a, b, dim, cls)
-    return odist(a, b, dim, cls) ** int(p)      # p = 2 (other classes), 3, 4, …
+    return odist(a, b, dim, cls) ** pnum(p)      # p = 2 (other classes), 3, 4, …, 0.5, 1.5, …
 
 
 def acc(p, x, c):
@@ -243,10 +271,14 @@ class P(Prop):
         ("TracklibVerif.Props.C18", "TV.C18.match_correct", "the same plus: when the point distance is symmetric, the swapped call reports the same score"),
         ("TracklibVerif.Props.C18", "TV.C18.match_correct_enu", "match_correct on ENUCoords tracks, dim in {1, 2, 3}, any sqrt, with both hypotheses discharged (the statement of the property as it stood)"),
         ("TracklibVerif.Props.C18", "TV.C18.match_correct_3d", "match_correct on GeoCoords / ECEFCoords tracks with dim = 3, swap clause included"),
-        ("TracklibVerif.Props.C18", "TV.C18.p2weight_number", "_p2weight(p) for a number whose type name contains 'int' or 'float' (Python int/float, numpy int8..64, uint8..64, float16..64): the accumulation of the VALUE of p (A + B**k, A + (B != 0) for 0, max for inf)"),
+        ("TracklibVerif.Props.C18", "TV.C18.p2weight_number", "_p2weight(p) for a number whose type name contains 'int' or 'float' (Python int/float — what match / compare hand over for every numpy scalar since 1f009f6): the accumulation of the VALUE of p (A + B**k, A + (B != 0) for 0, max for inf)"),
         ("TracklibVerif.Props.C18", "TV.C18.p2weight_infinite", "an infinite p gives max(A, B) whatever its type (the test p == float('inf') comes last)"),
-        ("TracklibVerif.Props.C18", "TV.C18.p2weight_unrecognised", "a number other than 0 and inf whose type name contains none of int/float/function (numpy.longdouble, longlong, ulonglong, bool) leaves `weight` unbound: UnboundLocalError"),
-        ("TracklibVerif.Props.C18", "TV.C18.match_any_form", "match(track1, track2, <constant of the mode>, p) with p a number of value v in any recognised type is the call match_correct / match_fdtw_correct are about"),
+        ("TracklibVerif.Props.C18", "TV.C18.p2weight_unrecognised", "_p2weight itself, on a number other than 0 and inf whose type name contains none of int/float/function (bool, numpy.bool, Fraction; numpy.longdouble / longlong / ulonglong no longer reach it through match / compare), leaves `weight` unbound: UnboundLocalError"),
+        ("TracklibVerif.Props.C18", "TV.C18.exponent_numpy", "_exponent(p) (first line of match / compare since 1f009f6) of a numpy floating / integer scalar (float16..64, longdouble, int8..uint64, intc, longlong, ulonglong) has the type name of a Python float / int — recognised by _p2weight as a number, not a callable — and the value of p; anything else is passed on unchanged"),
+        ("TracklibVerif.Props.C18", "TV.C18.match_any_form", "match(track1, track2, <constant of the mode>, p) with p a number of value v as ANY numpy floating or integer scalar (longdouble, longlong, ulonglong included: false before 1f009f6) or a Python int / float is the call match_correct / match_fdtw_correct are about"),
+        ("TracklibVerif.Props.C18", "TV.C18.match_numpy_scalar", "match / compare (every mode constant, every track1) with p a numpy floating (integer) scalar return exactly what they return with float(p) (int(p))"),
+        ("TracklibVerif.Props.C18", "TV.C18.match_numpy_scalar_old", "about matchCallOld, the documented pre-fix variant of match (no _exponent): numpy.longdouble(2) / longlong(2) / ulonglong(2) made the modes DTW / FDTW raise UnboundLocalError"),
+        ("TracklibVerif.Props.C18", "TV.C18.match_numpy_scalar_real", "the same for the front ends the driver runs (matchCallX / compareCallX, p any positive number): a numpy scalar p = x gives the result of the Python number x; for x not a natural number _p2weight receives a Python float (hp of match_real_correct holds for numpy.float16(1.5), numpy.longdouble(2.5), ...)"),
         ("TracklibVerif.Props.C18", "TV.C18.match_callable_form", "a callable p computing the accumulation of v (lambda, builtin max) is the same call as the number v"),
         ("TracklibVerif.Props.C18", "TV.C18.match_unknown_mode", "a constant that is not a matching mode is refused (UnknownModeError)"),
         ("TracklibVerif.Props.C18", "TV.C18.match_history_irrelevant", "match(m, track2) in the modes DTW / FRECHET, where m carries the feature rows of an earlier matching (or user features under the same names), returns exactly match(track1, track2) on the same positions without features"),
@@ -263,15 +295,29 @@ class P(Prop):
         ("TracklibVerif.Props.C18", "TV.C18.unit_invariant", "ENUCoords, dim 1/2/3: every coordinate of both tracks multiplied by c > 0 (another unit) gives the same coupling and the score multiplied by c**p, for a homogeneous sqrt (the real one; in floats exactly for c a power of two)"),
         ("TracklibVerif.Props.C18", "TV.C18.costBack_nonneg", "accumulated costs are non-negative when the point distance is"),
         ("TracklibVerif.Props.C18", "TV.C18.npow_nonneg", "B**k >= 0 for B >= 0"),
+        ("TracklibVerif.Props.C18", "TV.C18.front_ends_agree", "the front ends the driver runs (matchCallX / compareCallX / runSeqX of Model/DTWReal.lean, exponent any positive number) are matchCall / compareCall / runSeq on every p whose value is a natural number or infinity: the theorems above are about what is run"),
+        ("TracklibVerif.Props.C18", "TV.C18.p2weight_real", "_p2weight(p) for p = x > 0 not a natural number: A + B**x for a type name containing int / float (Python float: what it receives for every numpy floating scalar) and for a callable computing it; UnboundLocalError for other types (Fraction, Decimal)"),
+        ("TracklibVerif.Props.C18", "TV.C18.weightX_mono", "A + B**x is monotone in the accumulated cost whatever B**x is"),
+        ("TracklibVerif.Props.C18", "TV.C18.match_real_correct", "match(track1, track2, DTW, p = x) for x > 0 not a natural number (a Python / numpy float of any precision or a callable: hp is about _exponent(p)), any class of positions and dim with _distance defined, WHATEVER B**x computes: succeeds, score = least sum of d**x over all couplings (the cost table holds the accumulated costs as computed, also for integer point distances), S is a coupling whose cost is the score, pair/nb_links describe S, nobody left out, swapped call same score when the distance is symmetric"),
+        ("TracklibVerif.Props.C18", "TV.C18.match_fdtw_real_correct", "match(..., FDTW, p = x): same score as DTW and a coupling realising it, when B**x >= 0 on non-negative distances (the real power function is) and big is above every candidate cost"),
+        ("TracklibVerif.Props.C18", "TV.C18.compare_real_value", "compare(DTW | FDTW, p = x) is match followed by (score/nb_links)**(1.0/x); errors are those of match"),
+        ("TracklibVerif.Props.C18", "TV.C18.cost_unit_invariant_real", "every point distance multiplied by c > 0, accumulation A + B**x: same coupling, score multiplied by c**x, for a power function multiplicative at c (the real one; exact arithmetic)"),
+        ("TracklibVerif.Props.C18", "TV.C18.session_history_irrelevant_real", "session_history_irrelevant for the sessions the driver runs (runSeqX: p any positive number in any form), whatever B**x computes"),
+        ("TracklibVerif.Props.C18", "TV.C18.match_real_history", "matchCallX (any p, modes DTW / FRECHET) on a track1 carrying the feature rows of an earlier matching returns what it returns on the same positions without features"),
     ]
     partial = []
     open_statements = ["IEEE rounding: the theorems are over a linear order / ordered field; on the float runs the oracle compares with relative tolerance 1e-9 (no absolute tolerance: the check is the same in every unit of the coordinates)",
-                       "session_history_irrelevant excludes the FDTW modes (3 / 107): their coupling is valid only under the hypotheses of match_fdtw_correct; match_fdtw_history is the single-call statement",
+                       "session_history_irrelevant / session_history_irrelevant_real exclude the FDTW modes (3 / 107): their coupling is valid only under the hypotheses of match_fdtw_correct; match_fdtw_history is the single-call statement",
                        "the swap clause on GeoCoords tracks with dim = 2 is false for fixes of different heights (finding geo-2d-distance-asymmetric): match_onesided is what holds there",
-                       "non-integer exponents (p = 1.5), a dim other than 1, 2, 3 or a callable (`_distance` returns None), tracks whose positions are of two different classes, and STANDARD_PROJ = 2 are neither modelled nor generated"]
+                       "exponents that are not natural numbers (p = 0.5, 1.5, ...): B**x is a parameter of the model (Float.pow in the driver); match_real_correct holds for any such function, match_fdtw_real_correct needs B**x >= 0 on B >= 0; unit_invariant (coordinates multiplied by c) is stated for natural exponents and infinity only (cost_unit_invariant_real is the statement on the point distances for the other exponents)",
+                       "an exponent p given as a numpy scalar is judged as the Python number of the same value (1f009f6); the model carries the value of p exactly, so a numpy.float16 / float32 p whose value is not the decimal the caller wrote (float16(0.1)) is the number it holds; compare() for a finite p, (score/nb_links)**(1/p), is compared with the model only (not part of the statement)",
+                       "a negative or NaN exponent, a dim other than 1, 2, 3 or a callable (`_distance` returns None), tracks whose positions are of two different classes, and STANDARD_PROJ = 2 are neither modelled nor generated"]
     modelled = ("algo/comparison.py: match and compare as called — dispatch on the integer mode constants (2/3/4, 106/107/108; UnknownModeError otherwise), "
+                "_exponent (first line of both since 1f009f6: float(p) / int(p) for a numpy floating / integer scalar, decided on str(type(p)); anything else unchanged), "
                 "_dtw_matching / _fdtw_matching, _p2weight as its cascade of four tests on (str(type(p)), value of p) with UnboundLocalError when none fires, "
-                "for p = 0, 1, 2, 3, ... and inf in every Python / numpy scalar type and as a callable; _distance as its dispatch on dim (1 / 2 / 3 / callable) and on the "
+                "for p = 0, 1, 2, 3, ... and inf in every Python / numpy scalar type and as a callable, and (Model/DTWReal.lean: the front ends the driver runs) "
+                "for any other positive number p = x (A + B**x, x**(1.0/p) in compare; B**x a parameter, Float.pow in the driver); the cost tables T of _dtw / _fdtw hold the accumulated costs as "
+                "computed (np.zeros: floats), for integer point distances too; _distance as its dispatch on dim (1 / 2 / 3 / callable) and on the "
                 "class of the positions — ENUCoords (abs(dU), norm2D, norm), GeoCoords (AttributeError, distance2DTo = toENUCoords(point).norm2D(), distanceTo through "
                 "toECEFCoords; conversions of Model/Geo.lean), ECEFCoords (AttributeError twice, distanceTo) — with the order of the errors (empty tracks first); "
                 "_dtw (distance matrix, first row/column, forward step, predecessor encoding, backward walk), _fdtw + _update_node "
@@ -284,19 +330,22 @@ class P(Prop):
             "the same shapes in every unit: walks whose unit is 1e-6 .. 1e7 (origin up to 1000 units away), lattices scaled by 2^-20 .. 2^23 (ties survive), and `neardup` walks where four steps in ten are 1e-3 .. 1e-9 of a unit "
             "(or one ulp) — consecutive fixes that differ by less than any fixed tolerance — and one in ten repeats the fix; positions of class ENUCoords (83%), GeoCoords (12%: lon/lat walks of 1e-5 .. 1e-3 degree per step, "
             "steps down to 1e-9 degree, equal heights where the swapped call is compared) and ECEFCoords (5%), including the dim for which _distance is not defined on the class (AttributeError: correspondence only); dim as 1/2/3 or "
-            "(one call in ten) in its function form (Manhattan, Chebyshev, a non-symmetric callable: no swap clause for that one); coordinates as Python floats, Python ints or numpy.float64 (sessions), modes DTW/FDTW/FRECHET, "
+            "(one call in ten) in its function form (Manhattan, Chebyshev, a non-symmetric callable: no swap clause for that one); coordinates as Python floats, Python ints, numpy.int64 or numpy.float64, modes DTW/FDTW/FRECHET, "
             "one case in ten through compare(). Sessions (kind seq): 1..4 calls of match / compare on 2..4 shared tracks, the first or second argument being "
             "a track or what an earlier match returned (55% / 20%), 12% of the tracks already carrying diff/pair/ex/ey features (lists, scalars, a subset); "
-            "p = 0, 1, 2, 3, inf in every form (Python int/float, numpy int8..64 / uint8..64 / intc / float16..64, math.inf / numpy.inf / numpy.longdouble(inf), "
-            "lambda, builtin max, omitted), mode constants as int / numpy.int64 / float / omitted / a constant of the other front end, dim as int / numpy.int64 / "
+            "p = 0, 1, 2, 3, inf in every form (Python int/float, numpy int8..64 / uint8..64 / intc / longlong / ulonglong / float16..64 / longdouble, math.inf / numpy.inf / numpy.longdouble(inf), "
+            "lambda, builtin max, omitted) — in every mode, front end and dim: a numpy scalar p is judged by the oracle as the Python number of the same value —, mode constants as int / numpy.int64 / float / omitted / a constant of the other front end, dim as int / numpy.int64 / "
             "float / omitted, verbose False / True / omitted, keyword or positional; exhaustive: a matched track matched again for every pair of modes, "
-            "every form of p on fixed pairs. The oracle recomputes the optimum for the requested p on the positions of the objects involved and validates "
+            "every form of p on fixed pairs; whole-number tracks of every size up to 3e6 handed over as Python ints (style bigint, and three fixed pairs x every numpy integer type of p x p = 1, 2, 3 x DTW / FDTW x match / compare x dim 1 / Manhattan callable): "
+            "integer point distances whose p-th power exceeds the range of the type of p; exponents that are not natural numbers (0.5, 1.5, 2.5, 0.75, 3.25 as Python float, numpy.float16 / float32 / float64 / longdouble or a lambda; 15% of the random calls, "
+            "exhaustively on the 1-D lattice {0,1,2} and with a Manhattan callable on {0,1}^2) and whole-number coordinates handed over as Python ints (30% of the lattice / axis-aligned "
+            "single calls, the exhaustive non-integer-exponent scopes, sessions): point distances that are Python ints for dim = 1 and the integer callables. The oracle recomputes the optimum for the requested p on the positions of the objects involved and validates "
             "every returned matching (for p = 0, where 0**0 is a convention, only the matching). "
             "non-trivial = both tracks have at least 2 observations (a three-way minimum and a back-pointer choice exist); "
             "the input histogram counts the cases where two least predecessors tie")
     trusted = ["priority_dict (heapq with lazy deletion) is modelled by its contract: pop_smallest returns an entry with the least (priority, key)",
-               "numpy float64 `**` and Python float `**` with an integer-valued exponent are modelled by repeated `*` (compared with relative tolerance 1e-9); x**(1.0/k) by sqrt for k = 2 and libm pow otherwise",
-               "str(type(p)) is computed by the harness on the object it hands to tracklib and passed to the model (blanks removed); the substring tests are the model's",
+               "numpy float64 `**` and Python float `**` with an integer-valued exponent are modelled by repeated `*` (compared with relative tolerance 1e-9); x**(1.0/k) by sqrt for k = 2 and libm pow otherwise; `B**x` for an exponent that is not a natural number (Python int / float / numpy.float64 base) by Lean's Float.pow, the same libm pow",
+               "str(type(p)) is computed by the harness on the object it hands to tracklib and passed to the model (blanks removed); the substring tests are the model's; isinstance(p, numpy.floating) / isinstance(p, numpy.integer) of _exponent are modelled by membership of that name in the list of the names numpy prints for its floating / integer scalar types (float16/32/64, longdouble, float128/96; int8..64, uint8..64, longlong, ulonglong, intc, uintc, long, ulong)",
                "the function form of dim is modelled by the function the callable computes (three callables, written once in Python and once in the driver); `'function' in str(type(dim))` is not re-tested by the model",
                "on GeoCoords tracks the oracle takes the point distances from the position objects (GeoCoords.distance2DTo / distanceTo called directly, not through _distance): the geodesy is C14's business, the optimum over couplings is recomputed independently",
                "Lean Float.sin / cos / atan2 / pow / sqrt and Python's math functions are the same libm (the driver's GeoCoords distances agree with tracklib's within the 1e-9 relative tolerance on every generated input, fixes 1e-9 degree apart included)"]
@@ -326,17 +375,23 @@ class P(Prop):
                     "same, all ordered pairs of tracks of sizes 1..3 on the lattice {0,1,2}^2, dim 2, track1 up to the 8 symmetries of the square",
                     "modes FDTW and FRECHET: all ordered pairs of tracks of sizes 1..3 on {0,1}^2 (dim 2) and on the 1-D lattice {0,1,2} (dim 1)",
                     "a matched track matched again, m = match(t1, t2, modeA, pA); match(m, t3, modeB, pB): every pair of modes (9), (pA, pB) in {(1,1), (2,inf), (inf,2)}, all ordered pairs (t1, t2) of sizes 1..3 on the 1-D lattice {0,1,2}, t3 = mirror image of t2 + one point",
-                    "every form of p (15 forms of 0, 1, 2, 3; 9 forms of inf) x {DTW, FDTW} x {match, compare} on 6 fixed pairs of tracks (dim 1, 2, 3; with and without ties)",
+                    "every form of p (18 forms of 0, 1, 2, 3 — Python int / float, every numpy integer and floating scalar type incl. longlong, ulonglong, longdouble, a lambda; 9 forms of inf) x {DTW, FDTW} x {match, compare} on 6 fixed pairs of tracks (dim 1, 2, 3; with and without ties)",
+                    "integer point distances whose powers leave the range of the type of p: 3 fixed pairs of whole-number height profiles (Python ints, differences up to 3e6) x p in {1, 2, 3} as Python int and as each of 11 numpy integer types x {DTW, FDTW} x {match, compare} x dim in {1, Manhattan callable}",
                     "function form of dim (3 callables: Manhattan, Chebyshev, a non-symmetric one), mode DTW, p in {1,2,inf}: all ordered pairs of tracks of sizes 1..3 on the lattice {0,1}^2",
-                    "positions of class GeoCoords (4 fixed pairs) and ECEFCoords (2 fixed pairs) x dim in {1, 2, 3, 3 callables} x {DTW, FDTW, FRECHET} x {match with p in {1,2,inf}, compare with p = 2}"]
+                    "positions of class GeoCoords (4 fixed pairs) and ECEFCoords (2 fixed pairs) x dim in {1, 2, 3, 3 callables} x {DTW, FDTW, FRECHET} x {match with p in {1,2,inf}, compare with p = 2}",
+                    "exponents that are not natural numbers on integer point distances (coordinates handed over as Python ints), mode DTW with the FDTW and the swapped score: p in {0.5, 1.5}, all ordered pairs of tracks of sizes 1..3 on the 1-D lattice {0,1,2}, dim 1; p = 2.5, sizes 1..4; p = 1.5, Manhattan callable, sizes 1..2 on {0,1}^2; p = 0.5, Chebyshev callable, sizes 1..3 on {0,1}^2",
+                    "p in {0.5, 1.5, 2.5} as Python float / numpy.float16 / float32 / float64 / longdouble / lambda x {DTW, FDTW} x {match, compare} on the 6 fixed pairs, the lattice ones also with int coordinates"]
         return ["mode DTW (with the FDTW score and the swapped score), p in {1,2,inf}: all ordered pairs of tracks of sizes 1..3 on the lattice {0,1}^2, dim 2 (84^2 pairs)",
                 "same, all ordered pairs of tracks of sizes 1..3 on the 1-D lattice {0,1,2}, dim 1 (39^2 pairs)",
                 "same, all ordered pairs of tracks of sizes 1..2 on the lattice {0,1,2}^2, dim 2 (90^2 pairs)",
                 "modes FDTW and FRECHET: all ordered pairs of tracks of sizes 1..3 on the 1-D lattice {0,1,2}, dim 1",
                 "a matched track matched again, m = match(t1, t2, modeA, pA); match(m, t3, modeB, pB): every pair of modes (9), (pA, pB) in {(1,1), (2,inf), (inf,2)}, all ordered pairs (t1, t2) of sizes 1..2 on the 1-D lattice {0,1,2}, t3 = mirror image of t2 + one point",
-                "every form of p (15 forms of 0, 1, 2, 3; 9 forms of inf) x {DTW, FDTW} x {match, compare} on 6 fixed pairs of tracks (dim 1, 2, 3; with and without ties)",
+                "every form of p (18 forms of 0, 1, 2, 3 — Python int / float, every numpy integer and floating scalar type incl. longlong, ulonglong, longdouble, a lambda; 9 forms of inf) x {DTW, FDTW} x {match, compare} on 6 fixed pairs of tracks (dim 1, 2, 3; with and without ties)",
+                    "integer point distances whose powers leave the range of the type of p: 3 fixed pairs of whole-number height profiles (Python ints, differences up to 3e6) x p in {1, 2, 3} as Python int and as each of 11 numpy integer types x {DTW, FDTW} x {match, compare} x dim in {1, Manhattan callable}",
                 "function form of dim (3 callables: Manhattan, Chebyshev, a non-symmetric one), mode DTW, p in {1,2,inf}: all ordered pairs of tracks of sizes 1..2 on the lattice {0,1}^2",
-                "positions of class GeoCoords (4 fixed pairs) and ECEFCoords (2 fixed pairs) x dim in {1, 2, 3, 3 callables} x {DTW, FDTW, FRECHET} x {match with p in {1,2,inf}, compare with p = 2}"]
+                "positions of class GeoCoords (4 fixed pairs) and ECEFCoords (2 fixed pairs) x dim in {1, 2, 3, 3 callables} x {DTW, FDTW, FRECHET} x {match with p in {1,2,inf}, compare with p = 2}",
+                "exponents that are not natural numbers on integer point distances (coordinates handed over as Python ints), mode DTW with the FDTW and the swapped score: p in {0.5, 1.5}, all ordered pairs of tracks of sizes 1..3 on the 1-D lattice {0,1,2}, dim 1; p = 1.5, Manhattan callable, sizes 1..2 on {0,1}^2",
+                "p in {0.5, 1.5, 2.5} as Python float / numpy.float16 / float32 / float64 / longdouble / lambda x {DTW, FDTW} x {match, compare} on the 6 fixed pairs, the lattice ones also with int coordinates"]
 
     @staticmethod
     def sym_canon(t, g=3):
@@ -356,13 +411,14 @@ class P(Prop):
         out = []
         th = tier == "thorough"
 
-        def allpairs(g, npts, maxn, dim, mode, ps, canon=False):
+        def allpairs(g, npts, maxn, dim, mode, ps, canon=False, ct=None):
             ts = lat_tracks(npts, maxn)
             for a in ts:
                 if canon and not self.sym_canon(a, g):
                     continue
                 for b in ts:
-                    out.append({"kind": "m", "mode": mode, "ps": ps, "dim": dim, "a": "%d:%s" % (g, a), "b": "%d:%s" % (g, b)})
+                    out.append({"kind": "m", "mode": mode, "ps": ps, "dim": dim, "a": "%d:%s" % (g, a), "b": "%d:%s" % (g, b),
+                                **({"ct": ct} if ct else {})})
         # exhaustive lattices. 1-D lattice {0,1,2}: digits 0..2 of a '3:' string are the points (0, k, k), seen with dim = 1
         allpairs(2, 4, 4 if th else 3, 2, "dtw", PS)
         allpairs(3, 3, 4 if th else 3, 1, "dtw", PS)
@@ -374,6 +430,13 @@ class P(Prop):
             allpairs(3, 9, 2, 2, "dtw", PS)
         allpairs(3, 3, 3, 1, "fdtw", PS)
         allpairs(3, 3, 3, 1, "frechet", ["inf"])
+        # exponents that are not natural numbers, on point distances that are Python ints (coordinates handed over as ints; dim = 1,
+        # or a callable summing coordinate differences): B**p is not an integer although B is
+        allpairs(3, 3, 3, 1, "dtw", ["0.5", "1.5"], ct="int")
+        allpairs(2, 4, 2, "fn.manh", "dtw", ["1.5"], ct="int")
+        if th:
+            allpairs(3, 3, 4, 1, "dtw", ["2.5"], ct="int")
+            allpairs(2, 4, 3, "fn.cheb", "dtw", ["0.5"], ct="int")
         # the function form of `dim` (three callables) on the lattice {0,1}^2; every class of positions x every dim x every mode
         for fn in sorted(DIMFN):
             allpairs(2, 4, 3 if th else 2, fn, "dtw", PS)
@@ -393,11 +456,15 @@ class P(Prop):
             dim = rng.choice([1, 2, 2, 3])
             mode = rng.choice(["dtw", "dtw", "fdtw", "frechet"])
             ps = ["inf"] if mode == "frechet" else [rng.choice(PS)]
+            if mode != "frechet" and rng.random() < 0.15:
+                ps = [rng.choice(FRAC_PS)]
             cls, dim, style = self.rand_positions(rng, dim, style, single=(k % 10 != 9))
             fr = self.rand_frame(rng, style)
             a = self.rand_track(rng, n1, style, fr)
             b = self.rand_track(rng, n2, style, fr)
             extra = {} if cls == "enu" else {"cls": cls}
+            if cls == "enu" and style in ("lat3", "lat2", "line") and rng.random() < 0.3:
+                extra["ct"] = rng.choice(["int", "int", "np.int64"])      # whole-number coordinates handed over as Python ints / numpy.int64
             if k % 10 == 9:
                 out.append({"kind": "cmp", "mode": mode, "p": ps[0], "dim": dim, "a": a, "b": b, **extra})
             else:
@@ -435,36 +502,36 @@ class P(Prop):
                  ([[0.1, 0.2, 0.3], [1.3, -0.7, 0.9], [2.2, 0.4, -1.1]], [[0.3, 0.1, 0.2], [0.9, 1.1, 0.8], [2.5, 0.2, 0.1], [2.9, -0.3, 1.7]], 3),
                  ([[0, 0, 3.5], [0, 0, 1.25], [0, 0, 2.75], [0, 0, 0.5]], [[0, 0, 1.5], [0, 0, 3.0], [0, 0, 0.25]], 1)]
         forms = [(p, pf) for p in ("0", "1", "2", "3") for pf in FIN_FORMS] + [("inf", pf) for pf in INF_FORMS]
+        forms += [(p, pf) for p in ("0.5", "1.5", "2.5") for pf in FRAC_FORMS]
         for (a, b, dim) in fixed:
             for (p, pf) in forms:
                 for mode in ("dtw", "fdtw"):
                     for f in ("m", "c"):
-                        if self.gated(f, mode, p, pf):
-                            continue
                         out.append({"kind": "seq", "tracks": [a, b], "pre": ["none", "none"],
                                     "steps": [self.step(f, "t0", "t1", mode, p, pf, dim)]})
-            for cls, fs in ((CLS_UNBOUND, UNBOUND_FORMS), (CLS_LOWPREC, LOWPREC_FORMS)):
-                if cls in self.listed:
-                    for pf in fs:
-                        out.append({"kind": "seq", "tracks": [a, b], "pre": ["none", "none"],
-                                    "steps": [self.step("m", "t0", "t1", "fdtw", "2", pf, dim)]})
+                        if isinstance(a, str) and (is_frac(p) or pf in ("int", "float", "fn", "max")):
+                            # the same call on the same lattice tracks with the coordinates handed over as Python ints
+                            out.append({"kind": "seq", "ct": "int", "tracks": [a, b], "pre": ["none", "none"],
+                                        "steps": [self.step(f, "t0", "t1", mode, p, pf, dim)]})
+        # (S2b) integer point distances (heights handed over as Python ints, dim = 1 or a callable of the harness) whose powers exceed
+        # the small numpy integer types, p = 1, 2, 3 as every numpy integer type, DTW and FDTW, both front ends
+        for (a, b) in BIGINT_FIXED:
+            for p in ("1", "2", "3"):
+                for pf in ["int"] + sorted(NPINT_MAX):
+                    for mode in ("dtw", "fdtw"):
+                        for f in ("m", "c"):
+                            for dim, df in ((1, "int"), ("fn.manh", "fn")):
+                                out.append({"kind": "seq", "ct": "int", "tracks": [a, b], "pre": ["none", "none"],
+                                            "steps": [self.step(f, "t0", "t1", mode, p, pf, dim, df=df)]})
         # (S3) random sessions
         for k in range(30000 if th else 4000):
             out.append(self.rand_session(rng))
         return out
 
-    def gated(self, f, mode, p, pf):
-        """inputs of the two findings reported with this check (listed in known_findings.json or not generated)"""
-        if pf in UNBOUND_FORMS and p not in ("0", "inf") and mode != "frechet":
-            return CLS_UNBOUND
-        if pf in LOWPREC_FORMS and p not in ("0", "inf") and (mode == "fdtw" or (f == "c" and p not in ("1", "2"))):
-            return CLS_LOWPREC     # also compare(): `1.0/p` is evaluated in the precision of p (1/3 in float16)
-        return None
-
     def rand_session(self, rng):
         nt = rng.randint(2, 4)
         style = rng.choice(["lat3", "lat3", "lat3", "lat2", "lat2", "half", "half", "float", "float", "line", "line", "utm", "utm", "far",
-                            "walk", "neardup", "neardup", "slat"])
+                            "walk", "neardup", "neardup", "slat", "bigint"])
         hi = 4 if rng.random() < 0.6 else 7
         r = rng.random()
         cls = "geo" if r < 0.12 else ("ecef" if r < 0.16 else "enu")
@@ -473,8 +540,8 @@ class P(Prop):
         fr = self.rand_frame(rng, style)
         tracks = [self.rand_track(rng, rng.randint(1, hi), style, fr) for _ in range(nt)]
         pre = [rng.choice(["lists", "scalars", "partial"]) if rng.random() < 0.12 else "none" for _ in range(nt)]
-        ct = rng.choice(["float", "float", "np.float64", "int"]) if cls == "enu" else "float"
-        if ct == "int" and not all(float(v).is_integer() for t in tracks for q in t for v in q):
+        ct = rng.choice(["float", "float", "float", "np.float64", "int", "int", "np.int64"]) if cls == "enu" else "float"
+        if ct in ("int", "np.int64") and not all(float(v).is_integer() for t in tracks for q in t for v in q):
             ct = "float"
         steps, okres = [], []
         for k in range(rng.choice([1, 1, 2, 2, 3, 4])):
@@ -491,8 +558,8 @@ class P(Prop):
                 pf = "float" if p == "inf" else rng.choice(["int", "float"])
             elif r < 0.32 and p == "1":
                 pf = "default"
-            if self.gated(f, mode, p, pf):
-                pf = "float"
+            if rng.random() < 0.15:      # an exponent that is not a natural number
+                p, pf = rng.choice(FRAC_PS), rng.choice(["float", "float", "np.float64", "fn", "np.float16", "np.float32", "np.longdouble"])
             dim = rng.choice({"enu": [1, 2, 2, 3], "geo": [2, 2, 3, 3, 1], "ecef": [3, 3, 3, 2, 1]}[cls])
             df = rng.choice(["int", "int", "np", "float"]) if dim != 2 or rng.random() < 0.8 else "default"
             if rng.random() < 0.1:
@@ -504,15 +571,15 @@ class P(Prop):
             st = rng.choice(["kw", "kw", "pos"])
             steps.append(self.step(f, a, b, mode, p, pf, dim, mf, df, vb, st))
             tmp = {"ct": ct, "cls": cls, "tracks": tracks, "steps": steps}
-            if CLS_INTPOW not in self.listed and self.intpow(tmp, steps[-1]):
-                steps[-1]["pf"] = "int"      # inputs of the class fdtw-int-distance-… are generated only while it is listed
-            if f == "m" and mode != "bad" and defined(cls, dim) and not self.intpow(tmp, steps[-1]):
+            if CLS_NPCOORD not in self.listed and self.npoverflow(tmp, steps[-1]):
+                steps[-1]["pf"] = "float"      # inputs of the class fdtw-numpy-int-coordinates-… are generated only while it is listed
+            if f == "m" and mode != "bad" and defined(cls, dim) and not self.npoverflow(tmp, steps[-1]):
                 okres.append(k)      # (no later call on the result of a call of that class)
         case = {"kind": "seq", "tracks": tracks, "pre": pre, "steps": steps}
         if cls != "enu":
             case["cls"] = cls
         if ct != "float":
-            case["ct"] = ct      # the coordinates are handed to ENUCoords as Python ints / numpy.float64 instead of Python floats
+            case["ct"] = ct      # the coordinates are handed to ENUCoords as Python ints / numpy.int64 / numpy.float64 instead of Python floats
         return case
 
     def rand_positions(self, rng, dim, style, single):
@@ -599,6 +666,9 @@ class P(Prop):
         if style == "line":   # axis-aligned: distances are integers, ties are exact in every dim
             return [[float(rng.randint(0, 4)), 0.0, float(rng.randint(0, 3))] for _ in range(n)] if rng.random() < 0.5 else \
                    [[0.0, float(rng.randint(0, 4)), 0.0] for _ in range(n)]
+        if style == "bigint":  # whole numbers of every size up to 3e6 (heights in millimetres): integer distances whose powers leave int8 .. uint32
+            return [[rng.randint(0, 3) * 10 ** rng.randint(0, 6), rng.randint(0, 3) * 10 ** rng.randint(0, 3), rng.randint(0, 30) * 10 ** rng.randint(0, 5)]
+                    for _ in range(n)]
         if style == "far":    # tracks far apart: accumulated costs of 1e12 .. 1e21 for p = 2, 3
             return [[round(rng.uniform(0, 1) * 10 ** rng.randint(4, 7), 1), round(rng.uniform(0, 1) * 10 ** rng.randint(4, 7), 1),
                      round(rng.uniform(0, 1e4), 1)] for _ in range(n)]
@@ -653,10 +723,12 @@ class P(Prop):
                     "first_argument_already_matched": any(st["a"].startswith("r") for st in sts),
                     "track_with_earlier_features": any(q != "none" for q in case["pre"]),
                     "p_form": sts[0]["pf"], "p": sts[0]["p"], "mode": sts[0]["mode"], "coordinates": case.get("ct", "float"),
+                    "int_distance_power_above_type_of_p": any(self.intpow(case, st) for st in sts),
+                    "int64_distance_power_above_int64": any(self.npoverflow(case, st) for st in sts),
                     "argument_style": "%s mode=%s dim=%s verbose=%s" % (sts[0]["st"], sts[0]["mf"], sts[0]["df"], sts[0]["vb"])}
         t1, t2 = pts(case["a"]), pts(case["b"])
         return {"kind": case["kind"], "mode": case["mode"], "dim": str(case["dim"]), "positions": case.get("cls", "enu"),
-                **self.geom_tags([t1, t2]),
+                "coordinates": case.get("ct", "float"), **self.geom_tags([t1, t2]),
                 "p": ",".join(case["ps"]) if case["kind"] == "m" else case["p"],
                 "sizes": "%s x %s" % (min(len(t1), 9), min(len(t2), 9)) if max(len(t1), len(t2)) <= 4 else "larger",
                 "tie_between_predecessors": self.has_tie(case) if len(t1) > 1 and len(t2) > 1 else False}
@@ -686,7 +758,7 @@ class P(Prop):
         if pf == "fn":
             if p == "inf":
                 return lambda A, B: max(A, B)
-            k = int(p)
+            k = pnum(p)
             return (lambda A, B: A + (B != 0) * 1) if k == 0 else (lambda A, B: A + B ** k)
         if pf == "max":
             return max
@@ -694,7 +766,9 @@ class P(Prop):
             if pf in ("float", "math.inf", "np.inf"):
                 return {"float": float("inf"), "math.inf": math.inf, "np.inf": np.inf}[pf]
             return getattr(np, pf[3:])("inf")
-        k = int(p)
+        k = pnum(p)
+        if is_frac(p):
+            return k if pf == "float" else getattr(np, pf[3:])(k)
         if pf in ("int", "default"):
             return k
         if pf == "float":
@@ -711,7 +785,7 @@ class P(Prop):
             from tracklib.core.obs import Obs
             from tracklib.core.obs_time import ObsTime
             from tracklib.core.track import Track
-            conv = int if ct == "int" else self.np.float64
+            conv = {"int": int, "np.int64": self.np.int64, "np.float64": self.np.float64}[ct]
             t = Track([Obs(ENUCoords(conv(x), conv(y), conv(z)), ObsTime()) for (x, y, z) in pts(tr)])
         n = t.size()
         if pre == "lists":
@@ -792,7 +866,7 @@ class P(Prop):
             else:
                 mode = (MODE_MATCH if st["f"] == "m" else MODE_CMP)[st["mode"]]
             ty = str(type(self.mkp(st["p"], st["pf"]))).replace(" ", "")
-            val, fnw = (("-", st["p"]) if st["pf"] in ("fn", "max") else (st["p"], "-"))
+            val, fnw = (("-", ptok(st["p"])) if st["pf"] in ("fn", "max") else (ptok(st["p"]), "-"))
             toks.append(":".join([st["f"], str(mode), ty, val, fnw, str(st["dim"]), str(self.idx(case, st["a"])), str(self.idx(case, st["b"]))]))
         return ["C18.seq %s %s %s %s" % (case.get("cls", "enu"), "|".join(self.tok(t) for t in case["tracks"]),
                                       ",".join("0" if q == "none" else "1" for q in case["pre"]), ";".join(toks))]
@@ -823,15 +897,15 @@ class P(Prop):
     def cmp_seq(self, case, impl_out, model_out):
         if "steps" not in impl_out or "steps" not in model_out:
             return "impl=%s model=%s" % (str(impl_out)[:300], str(model_out)[:300])
-        tainted = set()      # results of calls of a listed class (and of calls made on such results): not compared
+        tainted = set()      # results of calls of the listed class (and of calls made on such results): not compared
         for k, st in enumerate(case["steps"]):
             io, mo = impl_out["steps"][k], model_out["steps"][k]
             if st["a"] in tainted or st["b"] in tainted:
                 tainted.add("r%d" % k)
                 continue
-            if self.gated(st["f"], st["mode"], st["p"], st["pf"]) == CLS_LOWPREC or self.intpow(case, st):
+            if self.npoverflow(case, st):
                 tainted.add("r%d" % k)
-                continue     # d**p is computed in float16/float32 (in the integer type of p) there: listed findings, the model works in float64
+                continue     # d**p is computed in int64 there and wraps around (listed finding); the model works in float64
             if "err" in io or "err" in mo:
                 if io.get("err") != mo.get("err"):
                     return "call %d: impl=%s model=%s" % (k, str(io)[:200], str(mo)[:200])
@@ -848,7 +922,7 @@ class P(Prop):
                     check_matching(Cm, pe, mo, len(t1), len(t2), "model", pe != "0")
                 if bad or not rclose(io["score"], mo["score"], TOL):
                     return "call %d: pairs impl=%s model=%s (%s)" % (k, io["pairs"], mo["pairs"], bad or "scores differ")
-                if self.exact_tracks(t1, t2, st["dim"], case.get("cls", "enu")):
+                if self.exact_tracks(t1, t2, st["dim"], case.get("cls", "enu")) and not is_frac(pe):
                     return "call %d: exact-arithmetic input, yet the couplings differ: impl=%s model=%s" % (k, io["pairs"], mo["pairs"])
                 continue
             if not rclose(io, mo, TOL):
@@ -912,21 +986,23 @@ class P(Prop):
         C = self.C
         if case["kind"] == "seq":
             return self.impl_seq(case)
-        t1, t2 = self.mk(case["a"], case.get("cls", "enu")), self.mk(case["b"], case.get("cls", "enu"))
+        # `ct`: the coordinates are handed to ENUCoords as Python ints / numpy.float64 instead of Python floats
+        t1 = self.mk_pre(case["a"], "none", case.get("ct", "float"), case.get("cls", "enu"))
+        t2 = self.mk_pre(case["b"], "none", case.get("ct", "float"), case.get("cls", "enu"))
         dim, mode = case["dim"], case["mode"]
         if isinstance(dim, str):
             dim = DIMFN[dim]
         if case["kind"] == "cmp":
-            pa = PVAL[self.parg(case)] if mode == "frechet" else PVAL[case["p"]]
+            pa = pnum(self.parg(case)) if mode == "frechet" else pnum(case["p"])
             return {"value": float(C.compare(t1, t2, mode=self.CM[mode], p=pa, dim=dim, verbose=False))}
         res = {}
         for p in case["ps"]:
             # FRECHET must ignore the exponent it is given: it is called with p = 1 or 2 (`parg`), never with inf
-            pa = PVAL[self.parg(case)] if mode == "frechet" else PVAL[p]
+            pa = pnum(self.parg(case)) if mode == "frechet" else pnum(p)
             o = self.out_of(C.match(t1, t2, mode=self.MM[mode], p=pa, dim=dim, verbose=False))
             o["score_swapped"] = float(C.match(t2, t1, mode=self.MM[mode], p=pa, dim=dim, verbose=False).score)
             if mode == "dtw":
-                o["score_fast"] = float(C.match(t1, t2, mode=C.MODE_MATCHING_FDTW, p=PVAL[p], dim=dim, verbose=False).score)
+                o["score_fast"] = float(C.match(t1, t2, mode=C.MODE_MATCHING_FDTW, p=pnum(p), dim=dim, verbose=False).score)
             if mode == "frechet":
                 o["compare"] = float(C.compare(t1, t2, mode=C.MODE_COMPARISON_FRECHET, dim=dim, verbose=False))
             res[p] = o
@@ -944,14 +1020,14 @@ class P(Prop):
         a, b = self.tok(case["a"]), self.tok(case["b"])
         dim, mode, cls = case["dim"], case["mode"], case.get("cls", "enu")
         if case["kind"] == "cmp":
-            return ["C18.compare %s %s %s %s %s %s" % (cls, mode, self.parg(case) if mode == "frechet" else case["p"], dim, a, b)]
+            return ["C18.compare %s %s %s %s %s %s" % (cls, mode, self.parg(case) if mode == "frechet" else ptok(case["p"]), dim, a, b)]
         out = []
         for p in case["ps"]:
-            pa = self.parg(case) if mode == "frechet" else p
+            pa = self.parg(case) if mode == "frechet" else ptok(p)
             out.append("C18.match %s %s %s %s %s %s" % (cls, mode, pa, dim, a, b))
             out.append("C18.match %s %s %s %s %s %s" % (cls, mode, pa, dim, b, a))
             if mode == "dtw":
-                out.append("C18.match %s fdtw %s %s %s %s" % (cls, p, dim, a, b))
+                out.append("C18.match %s fdtw %s %s %s %s" % (cls, ptok(p), dim, a, b))
             if mode == "frechet":
                 out.append("C18.compare %s frechet inf %s %s %s" % (cls, dim, a, b))
         return out
@@ -1002,7 +1078,7 @@ class P(Prop):
                 bad = check_matching(C, p, io, len(t1), len(t2), "implementation") or check_matching(C, p, mo, len(t1), len(t2), "model")
                 if bad or not rclose(io["score"], mo["score"], TOL):
                     return "p=%s: pairs impl=%s model=%s (%s)" % (p, io["pairs"], mo["pairs"], bad or "scores differ")
-                if self.exact(case):
+                if self.exact(case) and not is_frac(p):
                     return "p=%s: exact-arithmetic input, yet the couplings differ: impl=%s model=%s" % (p, io["pairs"], mo["pairs"])
                 for k in ("score", "score_swapped", "score_fast", "compare"):
                     if k in io and not rclose(io[k], mo[k], TOL):
@@ -1074,23 +1150,20 @@ class P(Prop):
         return None
 
     def classify(self, case, impl_out, msg):
-        """four classes. One on single calls:
+        """two classes. On sessions, a decidable predicate on the first failing call:
+        fdtw-numpy-int-coordinates-power-overflow: FDTW (match or compare) on ENUCoords tracks whose coordinates are numpy.int64, with a dim
+            that yields numpy.int64 distances (1, or a callable of the harness summing coordinate differences), p = 1, 2, 3, … handed to
+            `B**p` as an integer (a Python int, any numpy integer — int(p) since 1f009f6 —, or a lambda `A + B**k`), and some pair of
+            fixes whose distance B has B ** p above 2**63 - 1: `_fdtw` hands the raw distance to `B**p`, which numpy evaluates in int64
+            with a silent wrap-around (`_dtw` reads the distance back from a float64 array); decided from the case, see `npoverflow`.
+        On single calls:
         geo-2d-distance-asymmetric: tracks of GeoCoords whose fixes do not all have the same height, dim = 2, and the only clause
             that fails is "same score with the two tracks swapped": `GeoCoords.distance2DTo(q)` is the horizontal distance in the
             local frame of q, `q.distance2DTo(p)` in that of p, and the two horizontal planes differ (relative difference of the
-            order of dh / R per unit of dh / d);
-        three, each a decidable predicate on the first failing call of a session:
-        fdtw-int-distance-small-numpy-int-exponent: FDTW (match or compare) on tracks whose coordinates are Python ints, with a
-            dim that yields Python-int distances (1, or a callable summing coordinate differences), p >= 1 a numpy integer
-            (int8 .. uint64), and some pair of fixes whose distance B has B ** p above the largest value of the type of p:
-            `_fdtw` hands the raw distance to `B**p`, which numpy evaluates in the type of p (OverflowError when B does not fit,
-            silent wrap-around when the power does not: 65536 ** uint32(2) = 0) (`_dtw` reads the distance back from a
-            float64 array); decided from the case, see `intpow`;
-        p-numpy-type-name-without-int-or-float: p is a numpy scalar of type longlong / ulonglong / longdouble with a value other
-            than 0 and infinity, and the call raised UnboundLocalError (`_p2weight` recognises numbers by the substrings
-            'int' / 'float' of the type name);
-        fdtw-exponent-float16-float32: FDTW (match or compare) with a finite p >= 1 given as numpy.float16 / numpy.float32:
-            `_fdtw` raises a Python float to that power, which numpy evaluates in the precision of the exponent"""
+            order of dh / R per unit of dh / d).
+        (The three classes about an exponent p handed over as a numpy scalar — p-numpy-type-name-without-int-or-float,
+        fdtw-exponent-float16-float32, fdtw-int-distance-small-numpy-int-exponent — were repaired by 1f009f6: such inputs are judged like
+        any other, their witnesses are corpus cases.)"""
         if (case.get("kind") == "m" and case.get("cls") == "geo" and case.get("dim") == 2 and isinstance(impl_out, dict)
                 and "err" not in impl_out and len({q[2] for q in pts(case["a"]) + pts(case["b"])}) > 1
                 and self.spec(case, impl_out, skip_swap=True) is None):
@@ -1098,33 +1171,33 @@ class P(Prop):
         if case.get("kind") != "seq" or not isinstance(impl_out, dict) or "steps" not in impl_out:
             return None
         f = self.first_failure(case, impl_out)
-        if not f:
-            return None
-        st, o = case["steps"][f[0]], impl_out["steps"][f[0]]
-        cls = self.gated(st["f"], st["mode"], st["p"], st["pf"])
-        if cls == CLS_UNBOUND and o.get("err") == "err:UnboundLocalError":
-            return cls
-        if cls == CLS_LOWPREC and "err" not in o:
-            return cls
-        if self.intpow(case, st):
-            return CLS_INTPOW
+        if f and self.npoverflow(case, case["steps"][f[0]]):
+            return CLS_NPCOORD
         return None
 
-    @staticmethod
-    def int_distance_form(case, st):
-        """the FDTW variant (match or compare front end) with p >= 1 a numpy integer, on a call whose point distances are Python
-        ints: coordinates handed over as Python ints and dim = 1 (`abs(U1 - U2)`) or a callable of the harness (sums / maxima
-        of coordinate differences); dim = 2, 3 go through math.sqrt and `_dtw` reads the distance back from a float64 array"""
-        return (case.get("ct") == "int" and case.get("cls", "enu") == "enu" and st["mode"] == "fdtw" and st["pf"] in NPINT_MAX
-                and st["p"] not in ("0", "inf") and (st["dim"] == 1 or isinstance(st["dim"], str)))
+    def npoverflow(self, case, st):
+        """the defect class fdtw-numpy-int-coordinates-power-overflow, recognised from the case alone (see classify)"""
+        if not (case.get("ct") == "np.int64" and case.get("cls", "enu") == "enu" and st["mode"] == "fdtw"
+                and (st["pf"] in ("int", "default", "fn") or st["pf"] in NPINT_MAX)
+                and st["p"] not in ("0", "inf") and not is_frac(st["p"]) and (st["dim"] == 1 or isinstance(st["dim"], str))):
+            return False
+        t1, t2 = self.geo(case, st["a"]), self.geo(case, st["b"])
+        k, dim = int(st["p"]), st["dim"]
+        for a in t2:
+            for b in t1:
+                if dim == "fn.lead" and a[0] - b[0] < 0:
+                    continue      # max(x1 - x2, 0.0) is the float 0.0 there: a float distance
+                if int(odist(a, b, dim)) ** k > 2 ** 63 - 1:
+                    return True
+        return False
 
     def intpow(self, case, st):
-        """the defect class fdtw-int-distance-small-numpy-int-exponent, recognised from the case alone: `int_distance_form`, and
-        for some pair of fixes of the two tracks the integer distance B is such that B ** p exceeds the largest value of the type
-        of p — `_fdtw` evaluates `B ** p` in that type: OverflowError when B itself does not fit, a silent wrap-around otherwise
-        (65536 ** uint32(2) = 0), after which anything may follow (a wrong score, a coupling that does not realise it, a KeyError
-        in the backward walk)"""
-        if not self.int_distance_form(case, st):
+        """(input histogram only) a call whose point distances are Python ints — coordinates handed over as Python ints and dim = 1
+        (`abs(U1 - U2)`) or a callable of the harness — with p >= 1 a numpy integer such that for some pair of fixes the distance B
+        has B ** p above the largest value of the type of p: numpy would evaluate `B ** p` in that type (OverflowError / wrap-around;
+        the defect class fdtw-int-distance-small-numpy-int-exponent repaired by 1f009f6: match / compare hand int(p) over)"""
+        if not (case.get("ct") == "int" and case.get("cls", "enu") == "enu" and st["pf"] in NPINT_MAX
+                and st["p"] not in ("0", "inf") and not is_frac(st["p"]) and (st["dim"] == 1 or isinstance(st["dim"], str))):
             return False
         t1, t2 = self.geo(case, st["a"]), self.geo(case, st["b"])
         k, top, dim = int(st["p"]), NPINT_MAX[st["pf"]], st["dim"]
@@ -1160,7 +1233,7 @@ class P(Prop):
             if plain != st:
                 yield dict(case, steps=steps[:k] + [plain] + steps[k + 1:])
             if st["pf"] not in ("int", "float"):
-                yield dict(case, steps=steps[:k] + [dict(st, pf="float" if st["p"] == "inf" else "int")] + steps[k + 1:])
+                yield dict(case, steps=steps[:k] + [dict(st, pf=num_form(st["p"]))] + steps[k + 1:])
             if st["a"][0] == "r":
                 yield dict(case, steps=steps[:k] + [dict(st, a=steps[int(st["a"][1:])]["a"])] + steps[k + 1:])
             if st["b"][0] == "r":
@@ -1193,7 +1266,7 @@ class P(Prop):
         if case["kind"] == "seq":
             return case
         mode, dim = case["mode"], case["dim"]
-        pf = lambda p: "float" if p == "inf" else "int"
+        pf = num_form
         df = "fn" if isinstance(dim, str) else "int"
         steps = []
         if case["kind"] == "cmp":
@@ -1240,6 +1313,8 @@ class P(Prop):
         if case["kind"] == "m" and len(case["ps"]) > 1:
             for p in case["ps"]:
                 yield dict(case, ps=[p])
+        if case.get("ct"):
+            yield {k: v for k, v in case.items() if k != "ct"}
         a, b = pts(case["a"]), pts(case["b"])
         for k in range(len(a)):
             if len(a) > 1:
@@ -1264,13 +1339,27 @@ class P(Prop):
         # the quick scopes again (other random draws) rather than the 290 k cases of the thorough tier
         return self.cases(rng, "quick")
 
+    @staticmethod
+    def mutated_point(rng, cls, tr, others):
+        """a neighbour of a track for the failing-input search: one fix replaced. ENUCoords: a point of the lattice {0,1,2}^3 (ties).
+        GeoCoords / ECEFCoords: a copy of another fix of the case moved by about a metre (1e-5 degree), the height kept — the tracks stay
+        where they are: on GeoCoords the swap clause (dim = 2) is asked only of fixes of equal height a few hundred metres apart at most
+        (`geo-level`), where `distance2DTo` is symmetric up to rounding (finding geo-2d-distance-asymmetric otherwise)"""
+        if cls == "enu":
+            return [float(rng.randint(0, 2)), float(rng.randint(0, 2)), float(rng.randint(0, 2))]
+        q = list(rng.choice(others))
+        u = 1e-5 if cls == "geo" else 1.0
+        return [q[0] + rng.uniform(-1, 1) * u, q[1] + rng.uniform(-1, 1) * u, q[2] + (0.0 if cls == "geo" else rng.uniform(-1, 1) * u)]
+
     def mutate(self, case, rng):
+        cls = case.get("cls", "enu")
         if case["kind"] == "seq":
             for _ in range(20):
                 trs = [[list(q) for q in pts(t)] for t in case["tracks"]]
+                allp = [q for tr in trs for q in tr]
                 for tr in trs:
                     if tr:
-                        tr[rng.randrange(len(tr))] = [float(rng.randint(0, 2)), float(rng.randint(0, 2)), float(rng.randint(0, 2))]
+                        tr[rng.randrange(len(tr))] = self.mutated_point(rng, cls, tr, allp)
                 yield dict(case, tracks=trs)
             return
         a, b = pts(case["a"]), pts(case["b"])
@@ -1281,5 +1370,5 @@ class P(Prop):
             u = [list(q) for q in b]
             for tr in (t, u):
                 k = rng.randrange(len(tr))
-                tr[k] = [float(rng.randint(0, 2)), float(rng.randint(0, 2)), float(rng.randint(0, 2))]
+                tr[k] = self.mutated_point(rng, cls, tr, a + b)
             yield dict(case, a=t, b=u)
